@@ -125,6 +125,30 @@ def handlePoly (inp out : List String) : String :=
   let pout : P (Pos × Bool × Bool × Bool) := do let o ← posP; let a ← bool; let b ← bool; let c ← bool; pure (o, a, b, c)
   match P.run pin inp, P.run pout out with
   | some (g, p), some (o, ct, ix, xi) =>
+    -- a flat triangle (collinear corners) has no interior: its point set is the hull segment of the corners
+    let flat : Option (Pt × Pt × Pt) := match g with
+      | .triangle a b c => if orient a b c == .col then some (a, b, c) else none
+      | _ => none
+    match flat with
+    | some (a, b, c) =>
+      let mn (x y z : Rat) := if x ≤ y then (if x ≤ z then x else z) else (if y ≤ z then y else z)
+      let mx (x y z : Rat) := if x ≥ y then (if x ≥ z then x else z) else (if y ≥ z then y else z)
+      let inBox := mn a.x b.x c.x ≤ p.x && p.x ≤ mx a.x b.x c.x && mn a.y b.y c.y ≤ p.y && p.y ≤ mx a.y b.y c.y
+      let onLine := orient a b p == .col && orient b c p == .col && orient c a p == .col
+      let sp : Pos := if onLine && inBox then .onBoundary else .outside
+      let m := coordPos g p
+      let prop :=
+        if o != sp then "FAIL:point-in-flat-triangle-wrong"
+        else if ct then "FAIL:flat-triangle-contains-point"
+        else if ix != xi then "FAIL:polygon-intersects-point-wrong"
+        else if ix != (sp != .outside) then
+          (if onLine && ix then "FAIL:flat-triangle-intersects-whole-line" else "FAIL:flat-triangle-intersects-point-wrong")
+        else "PASS"
+      let tags := "flat-triangle pos=" ++ sp.str ++ (if onLine then " on-line" else " off-line")
+      -- correspondence: coordinate_position against its model; intersects against the model of `Triangle: Intersects<Coord>`
+      reply (o == m && ix == triCoord a b c p && ct == triContainsCoord a b c p) prop tags
+        (m.str ++ " " ++ toString (triContainsCoord a b c p) ++ " " ++ toString (triCoord a b c p)) (o.str ++ " " ++ toString ct ++ " " ++ toString ix)
+    | none =>
     if !inDomain g then skip "invalid-operand" else
     let sp := locate g p            -- the point set
     let m := coordPos g p           -- the model of the code
